@@ -99,6 +99,7 @@ ATTR = [
     (r"^sshut", ["C13"]),
     (r"^shut-while-sibling-live$", ["C13", "C11"]),
     (r"^shut-", ["C13"]),
+    (r"^verdict-cancelled-without-cancellation$", ["C04", "C10", "C11"]),
     (r"^verdict-.*-claims-success-spec-timeout", ["C04", "C10", "C08", "C02"]),
     (r"^verdict-.*-claims-success-spec-critical", ["C04", "C10", "C05", "C02"]),
     (r"^verdict-.*-claims-success-spec-", ["C04", "C10", "C02"]),
